@@ -266,6 +266,79 @@ def w1_concurrent_calls(col, rng, cidx, jobref):
                         tokens=len([e for e in log if e["kind"] == "POOL_NEW"])))
 
 
+def w5_concurrent_cache_writes(col, rng, cidx, jobref):
+    """Several threads run executors of ONE shared DAG at the same time, each writing its own cache file (same directory) and
+    each with its own arguments; pickling is a pre-emption point.  Every call returns its own value, every file exists and a
+    restart from it returns the value of the run that wrote it, executing nothing."""
+    import os
+    import pickle
+    import shutil
+    import tempfile
+
+    pid = "C16"
+    sp = sched.gen_shape(rng, nmin=2, nmax=6, mc_max=3, const_objects=0.0, flags=False)
+    sp["is_async"] = False
+    d, _e, plain = S.build_tawazi(sp)
+    ids = S.node_ids(sp)
+    nthreads = rng.choice([2, 3, 4])
+    tmpd = tempfile.mkdtemp(prefix="twzc16_")
+    rp = {"kind": "rerun_job", "job": dict(jobref, n_cases=cidx + 1), "source": S.render(sp), "threads": nthreads}
+    from . import sym as _sym
+
+    args = {t: [Sym("arg", cidx, "cw", t)] for t in range(nthreads)}
+    refs = {t: S.run_reference(sp, args[t], plain) for t in range(nthreads)}
+    out = {}
+    start = threading.Barrier(nthreads)
+    B.reset_log()
+    B.Settings.controlled = False
+    B.Settings.stress_sleep = 0.0
+    _sym.YIELD_IN_PICKLE[0] = 0.002
+
+    def worker(t):
+        start.wait()
+        path = os.path.join(tmpd, "run%d.pkl" % t)
+        out[t] = run_op_id("executor_with_cache_in", lambda: d.executor(cache_in=path)(*args[t]), "%d.cw.%d" % (cidx, t))
+
+    try:
+        ths = [threading.Thread(target=worker, args=(t,), name="twz-client") for t in range(nthreads)]
+        for th in ths:
+            th.start()
+        for th in ths:
+            th.join(120)
+        _sym.YIELD_IN_PICKLE[0] = 0
+        if any(th.is_alive() for th in ths):
+            col.inconclusive.append("concurrent cache-writing threads did not finish within 120 s")
+            return
+        col.evaluations += 1
+        col.counters["c16_concurrent_cache_writes"] += nthreads
+        for t in range(nthreads):
+            r = out.get(t)
+            if refs[t][0] != "ok" or r is None:
+                continue
+            path = os.path.join(tmpd, "run%d.pkl" % t)
+            if r[0] != "ok":
+                col.violation(pid, "concurrent_call_raised", dict(what="executor(cache_in=own file)", exc=repr(r[1])[:300], threads=nthreads, source=S.render(sp)), rp)
+                continue
+            if not same(refs[t][1].result, r[1]):
+                col.violation(pid, "concurrent_call_got_result_for_other_arguments_or_wrong_value", dict(
+                    what="executor(cache_in=own file)", expected=short(refs[t][1].result, 300), got=short(r[1], 300), source=S.render(sp)), rp)
+                continue
+            if not os.path.exists(path):
+                col.violation(pid, "cache_file_of_a_concurrent_run_is_missing", dict(threads=nthreads, source=S.render(sp)), rp)
+                continue
+            B.reset_log()
+            rr = probes.run_op("restart_from_own_file", lambda: d.executor(from_cache=path)(*args[t]))
+            ent = [e["node"] for e in B.snapshot() if e["kind"] == "FENTER"]
+            if rr[0] != "ok" or not same(refs[t][1].result, rr[1]) or ent:
+                col.violation(pid, "cache_file_of_a_concurrent_run_holds_another_runs_results", dict(
+                    expected=short(refs[t][1].result, 300), got=short(rr[1], 300) if rr[0] == "ok" else repr(rr[1])[:200], re_executed=ent,
+                    threads=nthreads, source=S.render(sp)), rp)
+        col.hashes.add(S.spec_hash({"cw": S.render(sp), "t": nthreads}))
+    finally:
+        _sym.YIELD_IN_PICKLE[0] = 0
+        shutil.rmtree(tmpd, ignore_errors=True)
+
+
 def w4_shared_flag(col, rng, cidx, jobref):
     """Many call sites share ONE activation flag object (a DAG argument); threads call the DAG concurrently with flags of
     different truthiness; the evaluation of the flag is a pre-emption point. Every call must activate exactly its own nodes."""
@@ -582,7 +655,9 @@ def job_conc16(j):
     for c in range(j["n_cases"]):
         w = c % 4
         try:
-            if w == 0:
+            if c % 12 == 11:
+                w5_concurrent_cache_writes(col, rng, c, j)
+            elif w == 0:
                 w1_concurrent_calls(col, rng, c, j)
             elif w == 1:
                 w2_build_overlap(col, rng, c, j)
